@@ -39,8 +39,8 @@ type option struct {
 }
 
 var (
-	optIn  = []string{"text/", "application/json"}
-	optOut = []string{"application/octet", "multipart/"}
+	optIn  = []string{"text/", "application/json", "form-data"}   // "form-data" is a substring, not a prefix, of multipart/form-data
+	optOut = []string{"application/octet", "multipart/", "plain"} // "plain" is a substring, not a prefix, of text/plain
 )
 
 func ctHasPrefix(m *msggen.Msg, prefixes ...string) bool {
@@ -134,7 +134,29 @@ func errorTag(m *msggen.Msg, captures bool) string {
 func headerStrings(hs []har.Header) []string {
 	out := make([]string, 0, len(hs))
 	for _, h := range hs {
-		out = append(out, h.Name+": "+h.Value)
+		out = append(out, normHeader(h.Name, h.Value))
+	}
+	sort.Strings(out)
+	return out
+}
+
+// normHeader renders one header line; the value of Trailer is a set of field names, compared as such.
+func normHeader(name, value string) string {
+	if name == "Trailer" {
+		var ns []string
+		for _, n := range strings.Split(value, ",") {
+			ns = append(ns, http.CanonicalHeaderKey(strings.TrimSpace(n)))
+		}
+		sort.Strings(ns)
+		value = strings.Join(ns, ",")
+	}
+	return name + ": " + value
+}
+
+func wantHeaders(m *msggen.Msg) []string {
+	out := make([]string, 0, len(m.Headers))
+	for _, kv := range m.Headers {
+		out = append(out, normHeader(kv.Name, kv.Value))
 	}
 	sort.Strings(out)
 	return out
@@ -239,7 +261,7 @@ func clip(s string) string {
 type finding struct{ sig, desc string }
 
 func checkCommonHeaders(kind string, m *msggen.Msg, got []har.Header) []finding {
-	want := msggen.SortedKVs(m.Headers)
+	want := wantHeaders(m)
 	missing, extra := multisetDiff(want, headerStrings(got))
 	if len(missing) == 0 && len(extra) == 0 {
 		return nil
